@@ -64,9 +64,10 @@ pub fn run(args: &Args, r: &mut Report) {
                 1 => TimeKind::Mono,
                 _ => TimeKind::Both,
             };
-            let min_wait_s = match rng.below(3) {
-                0 => None,
-                1 => Some(60 + rng.below(600)),
+            let min_wait_s = match rng.below(7) {
+                0 | 1 => None,
+                2 | 3 => Some(60 + rng.below(600)),
+                4 => Some(0), // "no sooner than now": still a timer the policy asked for
                 _ => Some(7200),
             };
             tl.push(match (&kind, min_wait_s.is_some()) {
